@@ -145,10 +145,10 @@ Definition wrem (w : world) (p : path) : world :=
 
 Definition parent (p : path) : path := (fst p, removelast (snd p)).
 Definition pname (p : path) : name := last (snd p) [].
-(* dest_root / name ; the name of a partition root is '' and joining it changes nothing *)
-Definition join (p : path) (k : name) : path :=
-  match k with [] => p | _ :: _ => (fst p, snd p ++ [k]) end.
+Definition join (p : path) (k : name) : path := (fst p, snd p ++ [k]).
 Definition is_root (p : path) : bool := match snd p with [] => true | _ => false end.
+(* dest_root / source.name ; the name of a partition root is '' and joining it changes nothing *)
+Definition target (dest s : path) : path := if is_root s then dest else join dest (pname s).
 Definition on_host (p : path) : bool := fst p =? 0.
 Definition patheq (a b : path) : bool :=
   (fst a =? fst b) && list_eqb (keq (key (fst a))) (snd a) (snd b).
@@ -314,7 +314,7 @@ Definition into (op : path -> path -> world -> world * res unit)
            (srcs : list path) (dest : path) (w : world) : world * res unit :=
   match is_dir w dest with
   | Err e => (w, Err e)
-  | Ok true => each (fun s => op s (join dest (pname s))) srcs w
+  | Ok true => each (fun s => op s (target dest s)) srcs w
   | Ok false =>
     match srcs with
     | [s] => op s dest w
